@@ -511,7 +511,11 @@ func cmdCheck(args []string) {
 		}
 		sort.Strings(ext)
 		for _, k := range ext {
-			assumptions = append(assumptions, "trusted contract of "+k+": "+externDoc[k])
+			doc := externDoc[k]
+			if doc == "" {
+				doc = "as written in the contract file (extern)"
+			}
+			assumptions = append(assumptions, "trusted contract of "+k+": "+doc)
 		}
 		for _, s := range db.scan {
 			assumptions = append(assumptions, "contract file: "+s)
@@ -522,6 +526,14 @@ func cmdCheck(args []string) {
 			"A-GOVC: the VC generator, go/ssa (naive form), go/types and the SMT solvers are trusted",
 			"termination is not proved",
 		)
+		assumptions = append(assumptions, "A-MODULAR: obligations of the verified functions that carry other properties' tags are taken as assumptions in this run; each is proved by the check of its own property (all 19 claimed properties are checked)")
+		if cls, ok := propClasses[*prop]; ok {
+			assumptions = append(assumptions, "this property is decided by the obligation classes "+strings.Join(cls, ", ")+" only; the functional obligations (POST, PRE other than lock ownership, INV, FRAME, SAFE) of the same functions are assumptions here")
+		}
+		for k, doc := range externDoc {
+			_ = k
+			_ = doc
+		}
 		assumptions = append(assumptions, propertyAssumptions[*prop]...)
 		var inl, ctr []string
 		for k := range inlined {
